@@ -13,11 +13,44 @@ starlark_syntax/src/syntax/parser_rd.rs:
 * expr_start         : the token set of `is_expr_start`
 * assign_ops         : `parse_assign_op` (Token variant, AssignOp variant; "" for plain `=`)
 * unary_ops          : the prefix arms of `parse_unary` (Token variant, Expr constructor)
+and from starlark_syntax/src/syntax/ast.rs:
+
+* str_escapes        : the arms of `fmt_string_literal` (the printer of string literals, load() names and desugared
+                       f-string formats) as (code point, code points of the text written); the regular expression pins the
+                       whole function: opening quote, one `match c` over `s.chars()` whose last arm writes the char itself,
+                       closing quote - any other shape (an extra fast path, a second loop) fails the translator
 Every regular expression must match exactly once; anything else fails the translator loudly.
 """
 import re
 
 P = "starlark_syntax/src/syntax/parser_rd.rs"
+A = "starlark_syntax/src/syntax/ast.rs"
+
+
+def rust_unescape(body):
+    """code points of the body of a Rust char / string literal (the escapes Rust has: \\n \\r \\t \\0 \\\\ \\' \\" \\xHH \\u{..})"""
+    out, i = [], 0
+    simple = {"n": 10, "r": 13, "t": 9, "0": 0, "\\": 92, "'": 39, '"': 34}
+    while i < len(body):
+        c = body[i]
+        if c != "\\":
+            out.append(ord(c))
+            i += 1
+            continue
+        k = body[i + 1]
+        if k in simple:
+            out.append(simple[k])
+            i += 2
+        elif k == "x":
+            out.append(int(body[i + 2:i + 4], 16))
+            i += 4
+        elif k == "u":
+            j = body.index("}", i)
+            out.append(int(body[i + 3:j].replace("_", ""), 16))
+            i = j + 1
+        else:
+            raise ValueError("unknown Rust escape in %r" % body)
+    return out
 
 
 def register(item, z, coq_list, coq_string0, num, src):
@@ -93,3 +126,24 @@ def register(item, z, coq_list, coq_string0, num, src):
         return coq_list(["(%s, %s)" % (coq_string(t), coq_string(o)) for t, o in rows])
 
     item("ParserC", "unary_ops", P, fn_body("parse_unary"), unary_ops, coq_type="list (string * string)")
+
+    def str_escapes(m):
+        lines = [l for l in m.group(1).split("\n") if l.strip()]
+        rows = []
+        for l in lines:
+            a = re.fullmatch(r"""\s*'((?:\\.|[^'\\])+)' => f\.write_str\("((?:\\.|[^"\\])*)"\)\?,""", l)
+            if not a:
+                raise ValueError("fmt_string_literal: unrecognised arm %r" % l)
+            c = rust_unescape(a.group(1))
+            if len(c) != 1:
+                raise ValueError("fmt_string_literal: arm pattern %r is not one char" % a.group(1))
+            rows.append("(%s, %s)" % (z(c[0]), coq_list([z(x) for x in rust_unescape(a.group(2))])))
+        if not rows:
+            raise ValueError("fmt_string_literal: no arms")
+        return coq_list(rows)
+
+    item("ParserC", "str_escapes", A,
+         r"""\nfn fmt_string_literal\(f: &mut Formatter<'_>, s: &str\) -> fmt::Result \{\n    f\.write_str\("\\""\)\?;\n"""
+         r"""    for c in s\.chars\(\) \{\n        match c \{\n(.*?)\n            x => f\.write_str\(&x\.to_string\(\)\)\?,\n"""
+         r"""        \}\n    \}\n    f\.write_str\("\\""\)\n\}\n""",
+         str_escapes, coq_type="list (Z * list Z)")
